@@ -339,6 +339,11 @@ func (cs *ContractSet) parseContractFile(path, pkgPath string) error {
 			continue
 		}
 		if cur == nil {
+			if clauseKW[kw] && kw != "props" {
+				// a clause outside any contract block (e.g. separated from its function by an ordinary
+				// comment line) would be silently ignored: refuse it
+				return fmt.Errorf("%s:%d: clause %q does not belong to a contract block (a non-//@ line ends the block)", path, ln, kw)
+			}
 			continue // free-standing comment line
 		}
 		if clauseKW[kw] {
